@@ -109,7 +109,7 @@ static inline unsigned refListHas(const uint8_t *v, const unsigned n, const uint
 
 // ---- header blocks: every '\x01' of a template is a fresh symbolic byte of a field *value* (any byte except NUL, CR, LF --
 // the line structure is C25's subject -- and DQUOTE: quoted strings are not part of the token-list grammar of Connection),
-// every '\x02' a fresh symbolic field-*name* byte (any tchar).
+// every '\x02' a fresh symbolic field-*name* byte (any tchar), every '\x03' a fresh symbolic digit.
 #define FWD_MAXN 512
 struct Block {
     uint8_t b[FWD_MAXN];
@@ -123,6 +123,7 @@ static inline unsigned blockPut(Block &k, const char *tmpl)
         uint8_t c = (uint8_t)*tmpl;
         if (c == 1) { c = vf_nondet_u8("v"); vf_assume((c != 0) & (c != '\r') & (c != '\n') & (c != '"')); }
         else if (c == 2) { c = vf_nondet_u8("n"); vf_assume(refTchar(c)); }
+        else if (c == 3) { c = vf_nondet_u8("d"); vf_assume((uint8_t)(c - '0') < 10); }
         k.b[k.n++] = c;
     }
     return start;
